@@ -290,6 +290,31 @@ func checkC11(c *Ctx) {
 			}
 		}
 	}
+	// what the pattern is matched against is the name as given: a normalisation in front of it (a Replacer, a trim, a case
+	// fold the pattern does not already express) gives strings that are no note names a number
+	{
+		nMatch, badArg := 0, ""
+		for _, b := range fn.Blocks {
+			for _, in := range b.Instrs {
+				call, isCall := in.(*ssa.Call)
+				if !isCall {
+					continue
+				}
+				callee := call.Call.StaticCallee()
+				if callee == nil || pkgPathOf(callee) != "regexp" || len(call.Call.Args) < 2 || !isStringType(call.Call.Args[1].Type()) {
+					continue
+				}
+				nMatch++
+				arg := call.Call.Args[1]
+				if prm, isPrm := arg.(*ssa.Parameter); !isPrm || prm.Parent() != fn {
+					badArg = fmt.Sprintf("the pattern is matched against %s at %s, not against the name as given", arg.String(), c.P.Pos(call.Pos()))
+				}
+			}
+		}
+		if nMatch > 0 {
+			c.Check(badArg == "", "R11.3", "config.StringToNote/pattern-applied-to-the-name-itself", c.P.Pos(fn.Pos()), fmt.Sprintf("%d match(es), each on the string parameter itself", nMatch), badArg)
+		}
+	}
 	pat, rpos, ok := c.P.globalRegexPattern(rePkg, reName)
 	if !c.Require(ok, "R11.3", "anchor:config.stringToNoteRegex", "stringToNoteRegex is not compiled from a constant pattern") {
 		return
@@ -834,4 +859,9 @@ func followForward(p *Program, fn *ssa.Function) *ssa.Function {
 		fn = callee
 	}
 	return fn
+}
+
+func isStringType(t types.Type) bool {
+	b, ok := t.Underlying().(*types.Basic)
+	return ok && b.Info()&types.IsString != 0
 }
